@@ -414,7 +414,7 @@ fn sweep_cases() -> Vec<TxCase> {
 }
 
 pub fn run(ctx: &Ctx) -> i32 {
-    let (shards, cases) = ctx.tier.pick((8, 1500), (64, 20_000));
+    let (shards, cases) = ctx.tier.pick((16, 6000), (64, 20_000));
     let (mut stats, mut viol) = run_shards(ctx, "random", shards, cases, case_strategy, check_case);
     let sweep = sweep_cases();
     let (s2, v2) = par_enumerate(ctx, "free-space-sweep", sweep.len() as u64, |i, stats| {
